@@ -87,6 +87,10 @@ func New(prop, tier string) *Ctx {
 		panic(err)
 	}
 	c.findings = LoadFindings(filepath.Join(c.Root, "known_findings.json"))
+	if extra := os.Getenv("VERIF_EXTRA_FINDINGS"); extra != "" {
+		// experimentation only (proposed entries not yet merged); never set by registered commands
+		c.findings = append(c.findings, LoadFindings(extra)...)
+	}
 	return c
 }
 
